@@ -188,7 +188,7 @@ func (p *Prog) FuncName(f *ssa.Function) string {
 	if pkg == nil || !strings.HasPrefix(pkg.Path(), modPath) {
 		return ""
 	}
-	if f.Synthetic != "" && f.Object() == nil {
+	if f.Synthetic != "" && f.Object() == nil && f.Name() != "init" {
 		return ""
 	}
 	sp := shortPkg(pkg.Path())
